@@ -84,7 +84,9 @@ func maximalCliques(m *M) [][]int {
 	for i := range all {
 		all[i] = i
 	}
-	rec(nil, all, nil)
+	if m.n > 0 { // the empty set is not counted as a clique of the empty graph
+		rec(nil, all, nil)
+	}
 	return out
 }
 
@@ -264,7 +266,7 @@ func checkUnd(c undCase) *vk.Failure {
 	}
 
 	// DegeneracyOrdering and KCore
-	if f := checkCores(m, g, c.K); f != nil {
+	if f := checkCores(m, g); f != nil {
 		return f
 	}
 
@@ -285,6 +287,15 @@ func checkUnd(c undCase) *vk.Failure {
 	}
 	if f := vk.MustPanic("kclique-k0", func() { community.KCliqueCommunities(0, g) }); f != nil {
 		return f
+	}
+	// KCore for k beyond degeneracy+1 (last: it is a known finding).
+	if n > 0 {
+		core, d := coreNumbers(m)
+		if c.K > d+1 {
+			if f := checkKCore(m, g, c.K, core, d); f != nil {
+				return f
+			}
+		}
 	}
 	return nil
 }
@@ -386,7 +397,7 @@ func checkCycleBasis(m *M, cycles [][]graph.Node, cyclomatic int) *vk.Failure {
 	return nil
 }
 
-func checkCores(m *M, g graph.Undirected, kExtra int) *vk.Failure {
+func checkCores(m *M, g graph.Undirected) *vk.Failure {
 	n := m.n
 	if n == 0 {
 		if f := vk.MustReturn("degeneracy-empty-graph", func() { topo.DegeneracyOrdering(g) }); f != nil {
@@ -435,11 +446,6 @@ func checkCores(m *M, g graph.Undirected, kExtra int) *vk.Failure {
 	}
 	for k := 0; k <= d+1; k++ {
 		if f := checkKCore(m, g, k, core, d); f != nil {
-			return f
-		}
-	}
-	if kExtra > d+1 {
-		if f := checkKCore(m, g, kExtra, core, d); f != nil {
 			return f
 		}
 	}
